@@ -85,7 +85,7 @@ type c20Run struct {
 	nodes   map[[33]byte]*c20Msg
 	pending map[uint64][]*c20Item
 	taint   map[string]bool
-	mayCast map[string]bool
+	mayCast map[string][]byte // identity -> wire bytes of applied messages
 
 	peers      map[int]*mockPeer
 	nFreshPeer int
@@ -95,6 +95,7 @@ type c20Run struct {
 	labels       map[string]int
 	inconclusive string
 	onItem       func(it *c20Item, changedGraph bool)
+	onKnown      func(key string)
 }
 
 func c20NewRun(t c20Fatal, u *c20Universe, ctx *c20Ctx) *c20Run {
@@ -107,13 +108,23 @@ func c20NewRun(t c20Fatal, u *c20Universe, ctx *c20Ctx) *c20Run {
 		nodes:   make(map[[33]byte]*c20Msg),
 		pending: make(map[uint64][]*c20Item),
 		taint:   make(map[string]bool),
-		mayCast: make(map[string]bool),
+		mayCast: make(map[string][]byte),
 		peers:   make(map[int]*mockPeer),
 		labels:  make(map[string]int),
 	}
 }
 
 func (r *c20Run) label(l string) { r.labels[l]++ }
+
+// applied records that m went into the graph and may therefore be relayed;
+// the wire form kept is that of the authentic message of that identity.
+func (r *c20Run) applied(m *c20Msg) {
+	w := m.wire
+	if a, ok := r.u.byKey[m.key]; ok {
+		w = a.wire
+	}
+	r.mayCast[m.key] = w
+}
 
 func (r *c20Run) peerFor(idx int) *mockPeer {
 	if idx >= 0 {
@@ -347,7 +358,7 @@ func (r *c20Run) evalCA(it *c20Item, rest []*c20Item, changed,
 	}
 	r.verifyInfo(it, c, all)
 	r.chans[scid] = c
-	r.mayCast[m.key] = true
+	r.applied(m)
 	r.label("ca_applied")
 
 	// Replay of parked updates (+ a pipelined update for this channel,
@@ -521,7 +532,7 @@ func (r *c20Run) evalCU(it *c20Item, changed, explained map[string]bool,
 			"in %v", p)
 	}
 	pols[m.dir] = m
-	r.mayCast[m.key] = true
+	r.applied(m)
 	if cur == nil {
 		r.label("cu_applied_first")
 	} else {
@@ -620,7 +631,7 @@ func (r *c20Run) evalReplay(scid uint64, batch []*c20Item, changed,
 		}
 		pols[d] = winner.msg
 		for _, it := range cands {
-			r.mayCast[it.msg.key] = true
+			r.applied(it.msg)
 		}
 		r.label("cu_applied_after_replay")
 	}
@@ -703,7 +714,7 @@ func (r *c20Run) evalNA(it *c20Item, changed, explained map[string]bool,
 			problems)
 	}
 	r.nodes[m.node] = m
-	r.mayCast[m.key] = true
+	r.applied(m)
 	if cur == nil {
 		r.label("na_applied_first")
 	} else {
@@ -753,13 +764,39 @@ func (r *c20Run) finish() bool {
 			r.t.Fatalf("C20: unexpected message type %T handed to "+
 				"Broadcast", b)
 		}
-		if !r.mayCast[k] {
-			var buf bytes.Buffer
-			_, _ = lnwire.WriteMessage(&buf, b, 0)
+		// What a peer connection would put on the wire. (Encoding
+		// after c20KeyOf: ChannelUpdate1.Encode rewrites the struct's
+		// ExtraOpaqueData.)
+		var buf bytes.Buffer
+		if _, err := lnwire.WriteMessage(&buf, b, 0); err != nil {
+			r.t.Fatalf("C20: relayed message does not encode: %v", err)
+		}
+		want, ok := r.mayCast[k]
+		if !ok {
 			r.t.Fatalf("C20: a message that was never applied to the "+
 				"graph was relayed to peers: %T %x", b, buf.Bytes())
 		}
 		relayedApplied++
+		if bytes.Equal(buf.Bytes(), want) {
+			continue
+		}
+		// Candidate finding (reported, C10 territory): the re-encoding
+		// of a channel_update drops unknown extension records, so the
+		// relayed bytes no longer carry a valid signature. That input
+		// class is excluded from the byte-level comparison.
+		if _, isCU := b.(*lnwire.ChannelUpdate1); isCU &&
+			c20HasUnknownExtra(want) {
+
+			r.label("relay_reencode_drops_unknown_tlv")
+			if r.onKnown != nil {
+				r.onKnown("C20:relay-reencode-drops-unknown-tlv")
+			}
+
+			continue
+		}
+		r.t.Fatalf("C20: an applied message is relayed with different "+
+			"bytes than it was received with:\n  applied %x\n  relayed %x",
+			want, buf.Bytes())
 	}
 	if relayedApplied > 2 {
 		r.label("relay_observed")
@@ -799,3 +836,16 @@ func (r *c20Run) close() {
 	r.ctx.stop()
 }
 
+// c20HasUnknownExtra reports whether the extension data of a channel_update
+// (wire bytes) holds a record other than the inbound fee (type 55555).
+func c20HasUnknownExtra(w []byte) bool {
+	lay, ok := c20LayoutCU(w)
+	if !ok {
+		return false
+	}
+	e := w[lay["Extra"].off:]
+	inbound := c20TLV(55555, make([]byte, 8))
+
+	return !(len(e) == 0 || (len(e) == len(inbound) &&
+		bytes.Equal(e[:4], inbound[:4])))
+}
